@@ -17,15 +17,29 @@ class Pipeline:
         self.model = model
         cc = model.cls(COMPILER, "Compiler")
         self.cls = cc
+        self.oneshot = []
         init = cc.own_method("__init__")
         self.ast_passes = self._pass_list(init, "astPasses")
         self.ir_passes = self._pass_list(init, "irPasses")
         self.compile = cc.own_method("Compile")
+        if self.compile is not None:
+            # small single-exit helpers of the compiler class (e.g. an extracted "generate wasm" step) are read in place
+            from .sem import expand_helpers
+
+            self.compile = expand_helpers(model, cc, self.compile)
         self.runpass = cc.own_method("__RunPass")
 
     def _pass_list(self, init, attr) -> List[str]:
         for n in ast.walk(init):
             if isinstance(n, ast.Assign) and isinstance(n.targets[0], ast.Attribute) and n.targets[0].attr == attr:
+                # list(..) / tuple(..) around the display change nothing; enumerate/iter/map/.. make it a one-shot iterator
+                while isinstance(n.value, ast.Call) and isinstance(n.value.func, ast.Name) and len(n.value.args) >= 1 and isinstance(n.value.args[0], (ast.List, ast.Tuple, ast.Call)) \
+                        and n.value.func.id in ("list", "tuple", "enumerate", "iter", "reversed", "zip", "map", "filter"):
+                    if n.value.func.id not in ("list", "tuple"):
+                        self.oneshot = getattr(self, "oneshot", []) + [(attr, n.value.func.id, n)]
+                    n = ast.Assign(targets=n.targets, value=n.value.args[-1] if n.value.func.id in ("map", "filter") else n.value.args[0], lineno=n.lineno)
+                if isinstance(n.value, ast.Tuple):
+                    n = ast.Assign(targets=n.targets, value=ast.List(elts=n.value.elts, ctx=ast.Load()), lineno=n.lineno)
                 if not isinstance(n.value, ast.List):
                     raise AnalysisError(f"{COMPILER}::Compiler.{attr} is not a list display")
                 out = []
